@@ -154,7 +154,9 @@ gradient_walker_reset (pixman_gradient_walker_t *walker,
     lx = (left_x - walker->base_x) * (1.0f/65536.0f);
     rx = (right_x - walker->base_x) * (1.0f/65536.0f);
     
-    if (FLOAT_IS_ZERO (rx - lx) || left_x == INT32_MIN || right_x == INT32_MAX)
+    if (FLOAT_IS_ZERO (rx - lx)			||
+	left_x - walker->base_x == INT32_MIN	||
+	right_x - walker->base_x == INT32_MAX)
     {
 	walker->a_s = walker->r_s = walker->g_s = walker->b_s = 0.0f;
 	walker->a_b = (la + ra) / 510.0f;
